@@ -142,6 +142,32 @@ def big(tier, rng):
         num2 = _zero(2, n)
         num2[0][rng.randrange(n)] = n
         yield {"h": 2, "w": n, "blocks": room, "num": num2, "planted": [[n] * n + [0] * n]}
+    # a room holding a 3x3 square (minus at most one corner) whose numbers form the ring around the empty centre: the
+    # largest count such a room can carry (8, or 7 without the corner); the ring is planted, the rest of the board is
+    # one more room filled next to the ring
+    for (h, w, cut) in [(3, 4, False), (4, 3, False), (3, 4, True), (4, 4, False), (3, 5, True)]:
+        sq = [[y, x] for y in range(3) for x in range(3)]
+        if cut:
+            sq.remove([2, 2] if (h, w) != (4, 3) else [0, 0])
+        other = [[y, x] for y in range(h) for x in range(w) if [y, x] not in sq]
+        if cut:
+            other = sorted(other)
+        blocks = sorted([sq, other], key=lambda b: b[0])
+        ring = [c for c in sq if c != [1, 1]]
+        k = len(ring)
+        # the other room: fill the cells of it that touch the ring's room side, as many as needed to be connected and
+        # to avoid a 2x2: take a single cell adjacent to a ring cell, with number 1
+        adj = [c for c in other if any(abs(c[0] - r[0]) + abs(c[1] - r[1]) == 1 for r in ring)]
+        if not adj:
+            continue
+        one = adj[0]
+        grid = [0] * (h * w)
+        for (y, x) in ring:
+            grid[y * w + x] = k
+        grid[one[0] * w + one[1]] = 1
+        num = _zero(h, w)
+        num[ring[0][0]][ring[0][1]] = k
+        yield {"h": h, "w": w, "blocks": blocks, "num": num, "planted": [grid]}
     for (h, w) in [(5, 5), (4, 6), (6, 4)]:
         for _ in range(12 if th else 3):
             blocks = L.random_rooms(rng, h, w, rng.choice([3, 4, 6]))
